@@ -706,6 +706,13 @@ pub fn k10(dir: &str, thorough: bool, seed: u64) {
         s("a -?? b\nb -?? a\n$a: f(b) & !f_1\n$b: a\n"),
         s("a -?? c\nb -?? c\nc -?? a\n$c: g(a, b) | g_10\n$a: c\n"),
         s("a -?? b\nb -?? a\n$a: h(b) ^ h_0\n$b: h(a) & k\n"),
+        // VARIABLES named like generated constants (D13): f(0) would be `f_0`, the implicit function of b at 1 `b_1`,
+        // the constant of the zero-arity k `k_`; twice in a row (`f_0` and `f_0_` both taken)
+        s("a -> x\n$x: f(a)\nx -> f_0\n$f_0: x\nf_0 -> a\n$a: f_0\n"),
+        s("a -?? b\nb -> b_1\n$b_1: b\nb_1 -> a\n$a: b_1\n"),
+        s("k_ -> a\n$a: k & k_\na -> k_\n$k_: a | k\n"),
+        s("a -> x\n$x: f(a) ^ f(!a)\nx -> f_0\n$f_0: x\nf_0 -> f_0_\n$f_0_: f_0\nf_0_ -> a\n$a: f_0_\n"),
+        s("a -> x\nf_1 -> x\n$x: f(a) | g(f_1)\nx -> f_1\n$f_1: x\nx -> a\n$a: x\n"),
         // constant arguments of uninterpreted functions, next to other uses of the same function
         s("a -?? b\nb -?? a\n$a: g(false) => g(b)\n$b: a\n"),
         s("a -?? b\nb -?? a\n$a: g(true) & !g(b)\n$b: g(false) | a\n"),
